@@ -16,6 +16,7 @@ import (
 	"github.com/ipld/go-ipld-prime/datamodel"
 	"github.com/ipld/go-ipld-prime/node/basicnode"
 	"github.com/ipld/go-ipld-prime/node/bindnode"
+	"github.com/ipld/go-ipld-prime/node/bindnode/registry"
 	"github.com/ipld/go-ipld-prime/schema"
 
 	"verif/internal/core"
@@ -238,6 +239,7 @@ func runC19(c *core.Ctx) error {
 		return err
 	}
 	c19Converters(c)
+	c19Registry(c)
 	if err := c19BindSection(c); err != nil {
 		return err
 	}
@@ -1212,6 +1214,7 @@ func c19BindWitnesses(c *core.Ctx) {
 
 type cvBool struct{ B bool }
 type cvInt struct{ I int64 }
+type cvMillis int64 // same Go kind as the schema kind: only the converter tells 21 from 21000
 type cvFloat struct{ F float64 }
 type cvString struct{ S string }
 type cvBytes struct{ B []byte }
@@ -1234,6 +1237,9 @@ func c19Converters(c *core.Ctx) {
 			func() core.Val { return core.Bool(r.Bool()) }},
 		{"int", schema.SpawnInt("X"), reflect.TypeOf(cvInt{}), bindnode.TypedIntConverter((*cvInt)(nil),
 			func(i int64) (interface{}, error) { return &cvInt{i}, nil }, func(v interface{}) (int64, error) { return v.(*cvInt).I, nil }),
+			func() core.Val { return core.Int(int64(r.Intn(2000)) - 1000) }},
+		{"int-scaled", schema.SpawnInt("X"), reflect.TypeOf(cvMillis(0)), bindnode.TypedIntConverter((*cvMillis)(nil),
+			func(i int64) (interface{}, error) { m := cvMillis(i * 1000); return &m, nil }, func(v interface{}) (int64, error) { return int64(*v.(*cvMillis)) / 1000, nil }),
 			func() core.Val { return core.Int(int64(r.Intn(2000)) - 1000) }},
 		{"float", schema.SpawnFloat("X"), reflect.TypeOf(cvFloat{}), bindnode.TypedFloatConverter((*cvFloat)(nil),
 			func(f float64) (interface{}, error) { return &cvFloat{f}, nil }, func(v interface{}) (float64, error) { return v.(*cvFloat).F, nil }),
@@ -1276,7 +1282,7 @@ func c19Converters(c *core.Ctx) {
 		caseID := fmt.Sprintf("c19.converter %s %s INPUT %s", kc.kind, slot, input.Term())
 		c.Count(caseID, true)
 		c.Dist("converter:" + kc.kind + ":" + slot)
-		var got, rewrapped, roundtrip string
+		var got, rewrapped, roundtrip, helper string
 		err, panicked, pv := core.Catch(func() error {
 			proto := bindnode.Prototype(reflect.New(goT).Interface(), ts.TypeByName("Root"), kc.opt)
 			nb := proto.NewBuilder()
@@ -1296,6 +1302,31 @@ func c19Converters(c *core.Ctx) {
 				return fmt.Errorf("decode: %w", err)
 			}
 			roundtrip = termOf(nb2.Build())
+			// the helper entry points with the same options: Marshal of the Go value, Unmarshal into a fresh one; the NODE
+			// that Unmarshal returns shows the same value as the Go value it filled, and re-encodes to the same bytes
+			hb, err := ipld.Marshal(dagcbor.Encode, gv, ts.TypeByName("Root"), kc.opt)
+			if err != nil {
+				return fmt.Errorf("ipld.Marshal: %w", err)
+			}
+			if !bytes.Equal(hb, buf.Bytes()) {
+				helper = "ipld.Marshal bytes differ"
+				return nil
+			}
+			out := reflect.New(goT).Interface()
+			un, err := ipld.Unmarshal(hb, dagcbor.Decode, out, ts.TypeByName("Root"), kc.opt)
+			if err != nil {
+				return fmt.Errorf("ipld.Unmarshal: %w", err)
+			}
+			if t := termOf(un); t != input.Term() {
+				helper = "node returned by ipld.Unmarshal shows " + t
+			} else if t := termOf(bindnode.Wrap(out, ts.TypeByName("Root"), kc.opt)); t != input.Term() {
+				helper = "Go value filled by ipld.Unmarshal shows " + t
+			} else {
+				var buf2 bytes.Buffer
+				if err := dagcbor.Encode(un.(schema.TypedNode).Representation(), &buf2); err != nil || !bytes.Equal(buf2.Bytes(), hb) {
+					helper = fmt.Sprintf("node returned by ipld.Unmarshal re-encodes as %x (%v), want %x", buf2.Bytes(), err, hb)
+				}
+			}
 			return nil
 		})
 		switch {
@@ -1306,6 +1337,151 @@ func c19Converters(c *core.Ctx) {
 		case got != input.Term() || rewrapped != input.Term() || roundtrip != input.Term():
 			c.Fail("C19/converter-value-differs", core.Replay{Kind: "oracle", Case: caseID, Impl: "built " + got + " | wrap(unwrap) " + rewrapped + " | decode(encode) " + roundtrip, Expected: input.Term(),
 				Detail: "a scalar bound through a custom converter: what was assembled is not what the node / the Go value / the round trip shows"})
+		case helper != "":
+			c.Fail("C19/converter-helper-differs", core.Replay{Kind: "oracle", Case: caseID, Impl: helper, Expected: input.Term(),
+				Detail: "ipld.Marshal / ipld.Unmarshal called with the converter options"})
+		}
+	}
+}
+
+type c19RegRec struct {
+	Name string
+	Tags []string
+	Note *string
+	N    int64
+}
+
+// c19Registry: the bindnode registry helper (node/bindnode/registry) shares the marshal / unmarshal obligation.  One
+// registry, one registered type, a history of conversions in which refused inputs (a truncated block, a wrong kind
+// late in the document, a node of the wrong shape) alternate with good ones through every entry point: each good
+// conversion returns the value that was encoded - whatever the registry was asked before - and each bad one an error.
+func c19Registry(c *core.Ctx) {
+	r := c.Rand.Fork()
+	const schemaText = "type Rec struct {\n Name String\n Tags [String]\n Note optional String\n N Int\n}\n"
+	genRec := func() c19RegRec {
+		v := c19RegRec{Name: string(core.GenStrBytes(r, core.GenCfg{ValidUTF8: true})), N: int64(r.Intn(1000)) - 500, Tags: []string{}}
+		for i := r.Intn(4); i > 0; i-- {
+			v.Tags = append(v.Tags, string('a'+rune(r.Intn(26))))
+		}
+		if r.Bool() {
+			s := "note-" + fmt.Sprint(r.Intn(100))
+			v.Note = &s
+		}
+		return v
+	}
+	show := func(v *c19RegRec) string {
+		note := "<none>"
+		if v.Note != nil {
+			note = *v.Note
+		}
+		return fmt.Sprintf("{Name:%q Tags:%q Note:%s N:%d}", v.Name, v.Tags, note, v.N)
+	}
+	v0 := c.Violations()
+	for iter := 0; iter < c.Pick(40, 3000); iter++ {
+		var hist []string
+		reg := registry.NewRegistry()
+		if err := reg.RegisterType((*c19RegRec)(nil), schemaText, "Rec"); err != nil {
+			c.Fail("C19/registry-register-refused", core.Replay{Kind: "oracle", Case: "c19.registry", Impl: err.Error()})
+			return
+		}
+		fresh := registry.NewRegistry()
+		_ = fresh.RegisterType((*c19RegRec)(nil), schemaText, "Rec")
+		for step := 0; step < 4+r.Intn(8); step++ {
+			v := genRec()
+			codecName := []string{"dag-cbor", "dag-json"}[r.Intn(2)]
+			enc, dec := codec.Encoder(dagcbor.Encode), codec.Decoder(dagcbor.Decode)
+			if codecName == "dag-json" {
+				enc, dec = dagjson.Encode, dagjson.Decode
+			}
+			var good []byte
+			var err error
+			if r.Bool() {
+				good, err = reg.TypeToBytes(&v, enc)
+			} else {
+				var buf bytes.Buffer
+				err = reg.TypeToWriter(&v, &buf, enc)
+				good = buf.Bytes()
+			}
+			ref, rerr := fresh.TypeToBytes(&v, enc)
+			if err != nil || rerr != nil || !bytes.Equal(good, ref) {
+				c.Fail("C19/registry-encode-differs", core.Replay{Kind: "oracle", Case: "c19.registry " + strings.Join(hist, " ; "), Impl: fmt.Sprintf("%x %v", good, err), Expected: fmt.Sprintf("%x %v", ref, rerr)})
+				break
+			}
+			entry := []string{"TypeFromBytes", "TypeFromReader", "TypeFromNode"}[r.Intn(3)]
+			bad := r.Chance(2, 5)
+			input := good
+			what := "good"
+			if bad {
+				switch k := r.Intn(3); {
+				case k == 0 && len(good) > 2:
+					input = good[:1+r.Intn(len(good)-1)]
+					what = "truncated"
+				case k == 1:
+					// the right shape until the last field, which has the wrong kind
+					w := struct {
+						Name string
+						Tags []string
+						N    string
+					}{v.Name, v.Tags, "not-a-number"}
+					n := core.Map(core.KV{K: []byte("Name"), V: core.Str(w.Name)}, core.KV{K: []byte("Tags"), V: func() core.Val {
+						var l []core.Val
+						for _, t := range w.Tags {
+							l = append(l, core.Str(t))
+						}
+						return core.List(l...)
+					}()}, core.KV{K: []byte("Note"), V: core.Str("secret")}, core.KV{K: []byte("N"), V: core.Str(w.N)})
+					bn, _ := core.BuildBasic(n, r)
+					var buf bytes.Buffer
+					_ = enc(bn, &buf)
+					input = buf.Bytes()
+					what = "wrong-kind-late"
+				default:
+					input = append(append([]byte{}, good...), good...)[:len(good)+1]
+					what = "trailing-byte"
+				}
+			}
+			var got interface{}
+			_, panicked, pv := core.Catch(func() error {
+				switch entry {
+				case "TypeFromBytes":
+					got, err = reg.TypeFromBytes(input, (*c19RegRec)(nil), dec)
+				case "TypeFromReader":
+					got, err = reg.TypeFromReader(bytes.NewReader(input), (*c19RegRec)(nil), dec)
+				default:
+					nb := basicnode.Prototype.Any.NewBuilder()
+					if derr := dec(nb, bytes.NewReader(input)); derr != nil {
+						// not even a data-model tree: hand over a node of the wrong shape instead
+						got, err = reg.TypeFromNode(basicnode.NewString("x"), (*c19RegRec)(nil))
+					} else {
+						got, err = reg.TypeFromNode(nb.Build(), (*c19RegRec)(nil))
+					}
+				}
+				return nil
+			})
+			hist = append(hist, fmt.Sprintf("%s(%s %s %x)", entry, codecName, what, input))
+			caseID := "c19.registry " + strings.Join(hist, " ; ")
+			c.Count(fmt.Sprintf("c19.registry %d %d", iter, step), bad)
+			c.Dist("registry:" + entry + ":" + what)
+			switch {
+			case panicked:
+				c.Fail("C19/registry-panics", core.Replay{Kind: "oracle", Case: caseID, Impl: fmt.Sprint(pv)})
+			case bad && err == nil:
+				c.Fail("C19/registry-accepts-bad-input", core.Replay{Kind: "oracle", Case: caseID, Impl: show(got.(*c19RegRec)), Expected: "error"})
+			case !bad && err != nil:
+				c.Fail("C19/registry-refuses-good-input", core.Replay{Kind: "oracle", Case: caseID, Impl: err.Error(), Expected: show(&v)})
+			case !bad:
+				g := got.(*c19RegRec)
+				if show(g) != show(&v) {
+					c.Fail("C19/registry-value-differs", core.Replay{Kind: "oracle", Case: caseID, Impl: show(g), Expected: show(&v),
+						Detail: "the value a registry conversion returns depends on what the registry was asked before"})
+				}
+			}
+			if c.Violations() > v0 {
+				break
+			}
+		}
+		if c.Violations() > v0 {
+			return
 		}
 	}
 }
